@@ -213,6 +213,44 @@ fn faults(r: &mut Rng, env: &Env, actor: &Option<T>) -> Vec<(Env, Option<T>, &'s
     // non-function method through an alias chain, at definition level and inside a function argument
     { let mut e = env.clone(); e.push(("Fa".into(), T::var("Fb"))); e.push(("Fb".into(), T::p("nat"))); e.push(("Sv".into(), T::Serv(vec![("m".into(), T::var("Fa"))]))); out.push((e, actor.clone(), "non-function-method")); }
     { let mut e = env.clone(); e.push(("Fb".into(), T::vec(T::p("nat")))); e.push(("G".into(), T::Func(vec![T::Serv(vec![("m".into(), T::var("Fb"))])], vec![], vec![]))); out.push((e, actor.clone(), "non-function-method-nested")); }
+    // the same fault with the offending name also used elsewhere, under every relative order of the definitions and methods
+    // (a checker that remembers names it has already validated must still check them as method types)
+    {
+        let mut pool = vec!["Aa", "Mm", "Zz", "Bb", "Yy"];
+        for i in (1..pool.len()).rev() { let j = r.below(i as u64 + 1) as usize; pool.swap(i, j); }
+        let (holder, svc, alias, link, inner) = (pool[0], pool[1], pool[2], pool[3], pool[4]);
+        let nonfunc = r.pick(&[T::p("text"), T::opt(T::p("nat")), T::rec(vec![]), T::Serv(vec![])]).clone();
+        let f_using = |x: &str| T::Func(vec![T::var(x)], vec![], vec![]);
+        match r.below(4) {
+            0 => { // another definition refers to the alias
+                let mut e = env.clone();
+                e.push((holder.into(), T::rec(vec![(0, T::var(alias))])));
+                e.push((svc.into(), T::Serv(vec![("m".into(), T::var(alias))])));
+                e.push((alias.into(), nonfunc));
+                out.push((e, actor.clone(), "non-function-method-shared-alias"));
+            }
+            1 => { // the method is bound to an inner link of an alias chain
+                let mut e = env.clone();
+                e.push((alias.into(), T::var(link))); e.push((link.into(), T::var(inner))); e.push((inner.into(), nonfunc));
+                e.push((svc.into(), T::Serv(vec![("m".into(), T::var(link))])));
+                out.push((e, actor.clone(), "non-function-method-inner-link"));
+            }
+            2 => { // another method of the same service mentions the alias (before or after in method order)
+                let mut e = env.clone();
+                let other = if r.coin(1, 2) { "a" } else { "z" };
+                e.push((svc.into(), T::serv(vec![(other.into(), f_using(alias)), ("m".into(), T::var(alias))])));
+                e.push((alias.into(), nonfunc));
+                out.push((e, actor.clone(), "non-function-method-sibling-use"));
+            }
+            _ => { // in the main actor
+                let mut e = env.clone();
+                e.push((alias.into(), nonfunc));
+                e.push((holder.into(), T::vec(T::var(alias))));
+                let other = if r.coin(1, 2) { "a" } else { "z" };
+                out.push((e, Some(T::serv(vec![(other.into(), f_using(alias)), ("m".into(), T::var(alias))])), "non-function-method-actor"));
+            }
+        }
+    }
     // oneway with a result; two annotations
     { let mut e = env.clone(); e.push(("Ow".into(), T::Func(vec![], vec![T::p("nat")], vec![2]))); out.push((e, actor.clone(), "oneway-with-result")); }
     { let mut e = env.clone(); e.push(("Two".into(), T::Func(vec![], vec![], vec![1, 3]))); out.push((e, actor.clone(), "two-annotations")); }
